@@ -202,8 +202,7 @@ func SignHashed(rand io.Reader, priv, e []byte) (r, s []byte, err error) {
 			return
 		}
 
-		var eInt, rInt, sInt, rkInt, dInt, d1Int big.Int
-		var d1, d1Inv fiat.SM2ScalarElement
+		var eInt, rInt big.Int
 
 		x := kG.GetAffineX() // 避免计算y坐标，可以节约计算量。x不需要保密，但z的数值会泄露k的信息，因此使用常数时间版本
 
@@ -215,41 +214,37 @@ func SignHashed(rand io.Reader, priv, e []byte) (r, s []byte, err error) {
 		if rInt.Sign() == 0 {
 			continue
 		}
+		rBytes := ensure32Bytes(&rInt)
 
-		var k big.Int
-		k.SetBytes(K[:])
+		// k、priv 及其派生值只参与常数时间的标量域运算，不经过 math/big
+		var rE, kE, rk, dE, d1, d1Inv, sE fiat.SM2ScalarElement
+		rE.SetBytes(rBytes)
+		kE.SetBytes(K[:]) // 1 <= k <= n-1 已检查
 
-		rkInt.Add(&rInt, &k)
-		// 标准要求排除的第二种情形
-		rkBytes := rkInt.Bytes()
-		if len(rkBytes) == 32 && utils.ConstantTimeCmp(rkBytes, nBytes, 32) == 0 {
+		// 标准要求排除的第二种情形： r + k = n，即 r + k = 0 (mod n)
+		rk.Add(&rE, &kE)
+		if rk.IsZero() == 1 {
 			continue
 		}
 
-		dInt.SetBytes(priv)
-		d1Int.Add(&dInt, one)
-
 		//SM2ScalarElement.SetBytes要求长度为32，因此，如果私钥实际长度短于32字节（标准不排除此种情形），左边补零（标准规定使用大端字节序）
-		d1Bytes := d1Int.Bytes()
 		var buf [32]byte
-		copy(buf[32-len(d1Bytes):], d1Bytes)
-
-		d1.SetBytes(buf[:]) // priv = n - 1 已经被排除，因此不会导致 d1 = 0. 编译器告警此处可忽略，因私钥的范围已经在一开始就检查过了
-		d1Inv.Invert(&d1)   // **常数时间**算法 constant time inversion here, about 10% performance hit
+		copy(buf[32-len(priv):], priv)
+		dE.SetBytes(buf[:]) // priv 的范围已经在一开始就检查过了
+		d1.Add(&dE, new(fiat.SM2ScalarElement).One()) // priv = n - 1 已经被排除，因此不会导致 d1 = 0
+		d1Inv.Invert(&d1) // **常数时间**算法 constant time inversion here, about 10% performance hit
 
 		// 标准要求计算  (k - r * priv) / (1 + priv)
 		// 这等价于 (k + r) / (1 + priv) - r
 		// 后者可以节约一次乘法
-		sInt.Mul(&rkInt, d1Inv.ToBigInt())
-		sInt.Sub(&sInt, &rInt)
-		sInt.Mod(&sInt, n)
+		sE.Mul(&rk, &d1Inv)
+		sE.Sub(&sE, &rE)
 
-		if sInt.Sign() == 0 {
+		if sE.IsZero() == 1 {
 			continue
 		}
 
-		// 注意，标准要求使用大端字节序，因此，如果输出结果高位字节为0，big.Int.Bytes_Unsafe()将输出少于32字节
-		return ensure32Bytes(&rInt), ensure32Bytes(&sInt), nil
+		return rBytes, sE.Bytes(), nil
 	}
 }
 
